@@ -23,9 +23,17 @@ did hold then (`old_code_partial`: every schedule avoiding three explicit situat
 configuration `Cfg.preFix` — they say nothing about the current code.  The harness reads the
 configuration from the source of `_async_ref` on every run and replays the witness schedules
 (corpus/C10) on the real code, where they now have to satisfy the oracle.
+
+Scope of the theorems: schedules of assignments, ticks and completions.  The driver replays a
+larger model (Async/ModelExt.lean: a watcher that assigns a plain value to another parameter while
+a result is being written; references with a dependency re-evaluated through `_sync_refs` when their
+source changes); on schedules without those two features it is the model of the theorems, state by
+state (`driver_model_is_core_model`).  The two extensions are tied to the code by the
+correspondence run and judged by the oracle (Async/SpecExt.lean) only — no theorem covers them.
 -/
 import ParamVerif.Async.LemmasGhost
 import ParamVerif.Async.RxLemmas
+import ParamVerif.Async.ExtLemmas
 
 namespace ParamVerif.Async
 
@@ -120,6 +128,11 @@ numbered in the order of the asynchronous assignments (`lastOf`, Async/Spec.lean
 oracle uses) -/
 theorem last_is_most_recent_assignment (c : Cfg) (p : Nat) (evs : List Event) :
     (run c evs).last p = lastOf p evs := last_eq_lastOf c p evs
+
+/-- what the driver replays for a case without a hook and without source changes is the model of
+the theorems above -/
+theorem driver_model_is_core_model (c : Cfg) (evs : List Event) :
+    (runH c none (evs.map Event.lift)).core = run c evs := runH_eq_run c evs
 
 /-! ### expression pipelines (`r.rx.pipe(coroutine function)`, Async/Rx.lean) -/
 
